@@ -344,6 +344,8 @@ def groups (log : List (List Char × Entry)) : List (List Char × List Entry) :=
 structure Result where
   /-- `.seq_arguments` -/
   seq : List Entry
+  /-- `.seq_conversions`: `[arg for arg in self._seq_arguments if isinstance(arg, Conversion)]` -/
+  seqConversions : List Entry
   /-- `.map_arguments` -/
   map : List (List Char × List Entry)
   warnings : List Warn
@@ -355,7 +357,8 @@ def parseW (w : Bool) (s : List Char) : Except PErr Result :=
   | .error e => .error e
   | .ok st =>
     let gs := groups st.map
-    if gs.all (fun g => sameType g.2) then .ok { seq := st.seq, map := gs, warnings := st.warnings, items := st.items }
+    if gs.all (fun g => sameType g.2) then
+      .ok { seq := st.seq, seqConversions := st.seq.filter (fun e => e.kind == .conv), map := gs, warnings := st.warnings, items := st.items }
     else .error .ArgumentTypeMismatch
 
 /-- `FormatString(s)` -/
